@@ -429,9 +429,12 @@ PROPS["C09"] = dict(
     ],
 )
 
-U05 = {r"spec_standard|spec_simple": 70, r"build_semi_index_scalar|5build_semi_index$|simple.*build_semi_index": 70,
-       r"pfsm_process_chunk": 70, r"process_chunk_(standard|simple)": 34, r"same_words": 5,
-       r"build_semi_index_(standard|simple)_(avx2|sse2)": 6}
+def u05(n):
+    lin = n + 2
+    return {r"spec_standard|spec_simple|spec_state|c05_": lin, r"build_semi_index_scalar|8standard16build_semi_index|6simple16build_semi_index": lin,
+            r"pfsm_process_chunk": lin, r"process_chunk_(standard|simple)": min(n, 32) + 2, r"same_words": 5,
+            r"build_semi_index_(standard|simple)_(avx2|sse2)": n // 16 + 3}
+
 
 PROPS["C05"] = dict(
     module="c05",
@@ -442,27 +445,27 @@ PROPS["C05"] = dict(
     assumptions=["_mm{,256}_min_epu8 and _mm{,256}_sub_epi8 replaced by models.rs (Kani cannot lower simd_select / reports a spurious simd_sub overflow)"],
     harnesses=[
         H("c05_pfsm_tables", timeout=300, bounds="all 4 x 256 table entries"),
-        H("c05_short_len4", timeout=600, unwindset=U05, bounds="all 4-byte strings: scalar, PFSM, simple"),
-        H("c05_short_len6", timeout=900, unwindset=U05, bounds="all 6-byte strings"),
-        H("c05_short_len8", timeout=1800, unwindset=U05, tier="thorough", bounds="all 8-byte strings"),
-        H("c05_short_len10", timeout=2700, unwindset=U05, tier="thorough", bounds="all 10-byte strings"),
-        H("c05_avx2_std_33", timeout=2400, unwindset=U05, tier="quick", bounds="all strings of that length vs reference machine"),
-        H("c05_avx2_std_34", timeout=2400, unwindset=U05, tier="thorough", bounds="all strings of that length vs reference machine"),
-        H("c05_avx2_std_40", timeout=2400, unwindset=U05, tier="thorough", bounds="all strings of that length vs reference machine"),
-        H("c05_avx2_std_65", timeout=2400, unwindset=U05, tier="thorough", bounds="all strings of that length vs reference machine"),
-        H("c05_avx2_std_32", timeout=2400, unwindset=U05, tier="thorough", bounds="all strings of that length vs reference machine"),
-        H("c05_avx2_std_7", timeout=2400, unwindset=U05, tier="quick", bounds="all strings of that length vs reference machine"),
-        H("c05_sse2_std_17", timeout=2400, unwindset=U05, tier="quick", bounds="all strings of that length vs reference machine"),
-        H("c05_sse2_std_33", timeout=2400, unwindset=U05, tier="thorough", bounds="all strings of that length vs reference machine"),
-        H("c05_sse2_std_40", timeout=2400, unwindset=U05, tier="thorough", bounds="all strings of that length vs reference machine"),
-        H("c05_sse2_std_16", timeout=2400, unwindset=U05, tier="thorough", bounds="all strings of that length vs reference machine"),
-        H("c05_avx2_simple_33", timeout=2400, unwindset=U05, tier="quick", bounds="all strings of that length vs reference machine"),
-        H("c05_avx2_simple_40", timeout=2400, unwindset=U05, tier="thorough", bounds="all strings of that length vs reference machine"),
-        H("c05_sse2_simple_17", timeout=2400, unwindset=U05, tier="quick", bounds="all strings of that length vs reference machine"),
-        H("c05_sse2_simple_33", timeout=2400, unwindset=U05, tier="thorough", bounds="all strings of that length vs reference machine"),
-        H("c05_dispatch_std_34", timeout=2700, unwindset=U05, tier="thorough", bounds="dispatcher, 34 bytes", replay="trace"),
-        H("c05_dispatch_simple_34", timeout=2700, unwindset=U05, tier="thorough", bounds="dispatcher (simple), 34 bytes", replay="trace"),
-        H("c05_witness_must_fail", kind="witness", tier="thorough", timeout=600, unwindset=U05),
+        H("c05_short_len4", timeout=600, unwindset=u05(4), bounds="all 4-byte strings: scalar, PFSM, simple"),
+        H("c05_short_len6", timeout=900, unwindset=u05(6), bounds="all 6-byte strings"),
+        H("c05_short_len8", timeout=1800, unwindset=u05(8), tier="thorough", bounds="all 8-byte strings"),
+        H("c05_short_len10", timeout=2700, unwindset=u05(10), tier="thorough", bounds="all 10-byte strings"),
+        H("c05_avx2_std_33", timeout=1200, unwindset=u05(33), tier="quick", bounds="all strings of that length vs reference machine"),
+        H("c05_avx2_std_34", timeout=1200, unwindset=u05(34), tier="thorough", bounds="all strings of that length vs reference machine"),
+        H("c05_avx2_std_40", timeout=1200, unwindset=u05(40), tier="thorough", bounds="all strings of that length vs reference machine"),
+        H("c05_avx2_std_65", timeout=1200, unwindset=u05(65), tier="thorough", bounds="all strings of that length vs reference machine"),
+        H("c05_avx2_std_32", timeout=1200, unwindset=u05(32), tier="thorough", bounds="all strings of that length vs reference machine"),
+        H("c05_avx2_std_7", timeout=1200, unwindset=u05(7), tier="quick", bounds="all strings of that length vs reference machine"),
+        H("c05_sse2_std_17", timeout=1200, unwindset=u05(17), tier="quick", bounds="all strings of that length vs reference machine"),
+        H("c05_sse2_std_33", timeout=1200, unwindset=u05(33), tier="thorough", bounds="all strings of that length vs reference machine"),
+        H("c05_sse2_std_40", timeout=1200, unwindset=u05(40), tier="thorough", bounds="all strings of that length vs reference machine"),
+        H("c05_sse2_std_16", timeout=1200, unwindset=u05(16), tier="thorough", bounds="all strings of that length vs reference machine"),
+        H("c05_avx2_simple_33", timeout=1200, unwindset=u05(33), tier="quick", bounds="all strings of that length vs reference machine"),
+        H("c05_avx2_simple_40", timeout=1200, unwindset=u05(40), tier="thorough", bounds="all strings of that length vs reference machine"),
+        H("c05_sse2_simple_17", timeout=1200, unwindset=u05(17), tier="quick", bounds="all strings of that length vs reference machine"),
+        H("c05_sse2_simple_33", timeout=1200, unwindset=u05(33), tier="thorough", bounds="all strings of that length vs reference machine"),
+        H("c05_dispatch_std_34", timeout=2700, unwindset=u05(34), tier="thorough", bounds="dispatcher, 34 bytes", replay="trace"),
+        H("c05_dispatch_simple_34", timeout=2700, unwindset=u05(34), tier="thorough", bounds="dispatcher (simple), 34 bytes", replay="trace"),
+        H("c05_witness_must_fail", kind="witness", tier="thorough", timeout=600, unwindset=u05(4)),
     ],
 )
 
@@ -477,7 +480,7 @@ PROPS["C07"] = dict(
     assumptions=["_pdep_u64 replaced by models.rs", "BalancedParens part of the index built over a single zero word (not the subject)"],
     harnesses=[
         H("c07_ib_1w", timeout=600, unwindset=U07, bounds="1 word"),
-        H("c07_ib_4w", timeout=900, unwindset=U07, bounds="4 words, CTZ"),
+        H("c07_ib_4w", timeout=2700, unwindset=U07, tier="thorough", bounds="4 words, CTZ"),
         H("c07_ib_4w_pdep", timeout=900, unwindset=U07, bounds="4 words, PDEP model"),
         H("c07_ib_9w", timeout=1800, unwindset=U07, tier="thorough", bounds="9 words (three galloping doublings)"),
         H("c07_ib_12w", timeout=2700, unwindset=U07, tier="thorough", bounds="12 words"),
